@@ -53,17 +53,19 @@ def cases(spec, ctx):
     for i in range(spec["n"]):
         rng = ctx.rng(spec["sub"], i)
         nv_hi = 4 if rng.random() < 0.35 else 3
-        case = multi.gen_case(rng, nvars=(1, nv_hi), depth=(1, 4))
+        case = multi.gen_case(rng, nvars=(1, nv_hi), depth=(1, 4), equal_valued=0.12)
         if rng.random() < 0.03:
             case["cond"] = None
         case["caching"] = rng.random() < 0.7
         case["form"] = rng.choice(["set_of", "set_of", "direct_list"])
         case["how"] = rng.choice(["let", "let", "mix"])
+        case["times"] = rng.choice([1, 1, 2, 3])
         yield case
 
 
-def _run(case, world, caching):
-    return multi.evaluate(case, world, caching=caching, form=case.get("form", "set_of"), how=case.get("how", "let"))[0]
+def _run(case, world, caching, times=1):
+    r = multi.evaluate(case, world, caching=caching, form=case.get("form", "set_of"), how=case.get("how", "let"), times=times)
+    return r if times > 1 else r[0]
 
 
 def check_case(case, ctx):
@@ -73,6 +75,8 @@ def check_case(case, ctx):
     ctx.cls(f"cls:nvars={nv}")
     ctx.cls("cls:all_selected" if multi.all_selected(case) else "cls:subset_selected")
     ctx.cls("cls:caching_on" if case["caching"] else "cls:caching_off")
+    if "E" in case["kinds"]:
+        ctx.cls("cls:equal_valued_distinct_objects")
     if any(not isinstance(s, int) for s in case["sel"]):
         ctx.cls("cls:expr_selected")
     ment = C.mentioned(case["cond"]) if case["cond"] is not None else set()
@@ -82,17 +86,22 @@ def check_case(case, ctx):
         ctx.cls("cls:K02_precondition(mentioned_not_selected)")
     if multi.nontrivial(case, world, exp):
         ctx.nontrivial()
+    times = case.get("times", 1)
     try:
-        got = _run(case, world, case["caching"])
+        gots = _run(case, world, case["caching"], times=max(times, 2))[:times] if times > 1 else [_run(case, world, case["caching"])]
     except Exception as e:
         ctx.fail("EXC", f"{type(e).__name__}: {e}")
         return
+    got = gots[0]
     if "known_deviation" in M.RETRIEVE_EVENTS:
         ctx.cls("cls:K05_precondition(retrieve_deviation_event)")
-    k = multi.compare(case, got, exp)
-    if k:
-        ctx.fail(k, {"expected": sorted(set(exp)), "observed": sorted(set(got)), "n_expected": len(exp), "n_observed": len(got),
-                     "missing": sorted(set(exp) - set(got))[:10], "extra": sorted(set(got) - set(exp))[:10]})
+    for n, g in enumerate(gots):
+        k = multi.compare(case, g, exp)
+        if k:
+            ctx.fail(k, {"evaluation_no": n + 1, "expected": sorted(set(exp)), "observed": sorted(set(g)), "n_expected": len(exp),
+                         "n_observed": len(g), "missing": sorted(set(exp) - set(g))[:10], "extra": sorted(set(g) - set(exp))[:10]},
+                     evaluation_no=n + 1)
+            break
     ctx.sample({"kinds": case["kinds"], "condition": case["cond"], "select": case["sel"], "caching": case["caching"],
                 "expected_rows": len(exp), "observed_rows": len(got), "first_rows": got[:3]})
 
@@ -105,7 +114,8 @@ def classify(f, ctx):
 
 
 def classify_multi(f, case, world, exp):
+    n = f.get("evaluation_no", 1)
     return KF.attribute(
-        f, lambda caching: _run(case, world, caching), exp,
+        f, lambda caching: (_run(case, world, caching, times=n)[n - 1] if n > 1 else _run(case, world, caching)), exp,
         mentioned_not_selected=bool(multi.vars_mentioned_not_selected(case)),
         compare=lambda got, e: multi.compare(case, got, e))
